@@ -37,7 +37,7 @@ def check(run):
     if len(h1) > 2500:
         h1 = h1[:: len(h1) // 2500 + 1]
     run.log("%d QoS 1 scripts re-using one identifier with an injected failure" % len(h1))
-    scns = [inboundlib.scenario(h, [1, 2], shape=[0, 0, 1, 0, 2, 0, 3][i % 7]) for i, h in enumerate(hs)] + [inboundlib.scenario(h, [1, 2], dupall=True) for h in h1]
+    scns = [inboundlib.scenario(h, [1, 2], shape=[0, 4, 1, 0, 2, 4, 3][i % 7]) for i, h in enumerate(hs)] + [inboundlib.scenario(h, [1, 2], dupall=True) for h in h1]
     # every seventh scenario: the nodes talk through the project's own rpc package (TLS, interceptors) instead of a bare connection
     for i, s_ in enumerate(scns):
         if i % 7 == 3:
